@@ -4,7 +4,8 @@ ChainParent == [r |-> "", s |-> "r", l |-> "s"]
 StarParent  == [r |-> "", s |-> "r", l |-> "r"]
 TwoParent   == [r |-> "", s |-> "r", l |-> ""]
 AnyFlagSets == SUBSET Flags
-AllEnv   == {"Edit", "Touch", "DeleteArt", "Truncate", "StripKey", "Replace", "MakeCsr"}
+AllEnv   == {"Edit", "Touch", "DeleteArt", "Truncate", "StripKey", "Replace", "MakeCsr", "EditProfile", "Expire"}
+LeafProfile == {"l"}
 AllFault == {"SignFail", "WriteErr", "WriteTorn", "Die"}
 \* the judgement is made while evaluating the ASSUME of RepoTrace; nothing is left to explore
 TInit == st = InitState /\ nenv = 0
